@@ -80,7 +80,7 @@ struct H {
     std::string gen_label() { static const char *v[] = {"time", "voltage", "l a b e l", "\xc3\xa4", "x"}; return r.pick(v); }
 
     void op() {
-        int k = (int)r.weighted({4, 4, 3, 2, 8, 1, 2});
+        int k = (int)r.weighted({4, 4, 3, 2, 8, 1, 2, 1});
         size_t cur = m.size();
         if (cur >= 4 && k <= 3) k = 4;
         try {
@@ -154,6 +154,11 @@ struct H {
                     else if (q == 2) { std::string l = gen_label(); c.op("SetDimension::label"); s.label(l); w.label = l; }
                     else { c.op("SetDimension::label none"); s.label(nix::none); w.label = boost::none; }
                 }
+                break; }
+            case 7: {   // an alias dimension is the only descriptor of its array: with descriptors present the append is refused, nothing is replaced
+                if (m.empty()) break; c.op("appendAliasRangeDimension on-array-with-descriptors | " + str(m.size()));
+                bool threw = false; try { a.appendAliasRangeDimension(); } catch (std::exception &) { threw = true; }
+                c.check(threw, "C13/illegal-accepted/appendAliasRangeDimension/descriptors-present", "appendAliasRangeDimension accepted on an array that already has " + str(m.size()) + " descriptor(s)");
                 break; }
             case 5: { c.op("deleteDimensions"); bool ok = a.deleteDimensions(); m.clear(); c.check(ok && a.dimensionCount() == 0 && a.dimensions().empty(), "C13/deleteDimensions-leaves-some", "dimensions remain after deleteDimensions"); break; }
             case 6: { c.op("close+reopen"); std::string an = a.name(); a = nix::none; b = nix::none; frames.clear(); f.close(); f = File::open(path, r.chance(0.5) ? FileMode::ReadWrite : FileMode::ReadOnly); b = f.getBlock("b"); a = b.getDataArray(an); compare("after reopen");
